@@ -7,8 +7,13 @@ Extraction Language OCaml.
 (* the resolver as pinned: the flags regenerated from name_resolution.rs on this run *)
 Definition resolve_pinned := Resolver.resolve gen_rflags.
 (* the resolver with every scope restored (what the specification describes) *)
-Definition resolve_fixed := Resolver.resolve (mkFlags true true true true).
-Extraction "resolvemodel.ml" Resolved.mkResolved PAst.mkModule resolve_pinned resolve_fixed ResolveSpec.resolve_spec ResolveSpec.resolve_spec_nsfirst
-  Wf.wf_ast NsShadow.no_ns_shadow TreeOk.tree_ok gen_rflags
+Definition resolve_fixed := Resolver.resolve (mkFlags true true true true (imports_fixpoint gen_rflags)).
+(* the specification / the condition no_ns_shadow, over the global tables as the import pass of this run's code
+   leaves them *)
+Definition spec_pinned := ResolveSpec.resolve_spec (imports_fixpoint gen_rflags).
+Definition nsfirst_pinned := ResolveSpec.resolve_spec_nsfirst (imports_fixpoint gen_rflags).
+Definition no_ns_shadow_pinned := NsShadow.no_ns_shadow (imports_fixpoint gen_rflags).
+Extraction "resolvemodel.ml" Resolved.mkResolved PAst.mkModule resolve_pinned resolve_fixed spec_pinned nsfirst_pinned
+  Wf.wf_ast no_ns_shadow_pinned TreeOk.tree_ok gen_rflags
   Topo.init_order GenResolve.gen_assign_target_deps Resolved.stmt_span
   Modules.tree Modules.use_path Modules.implicit_name GenResolve.gen_std_libs GenResolve.gen_std_uses.
